@@ -76,6 +76,11 @@ def cases(tier, seed):
             for fsp in (False, True):
                 for content in contents_for(fmag, fsp):
                     yield dict(kind='bfs', storage=storage, fmag=fmag, fsp=fsp, content=content, depth=depth)
+    # in-memory catalogs that carry the forecast's filter statements as a RECORD (constructor keyword), not yet applied
+    for fsp in (False, True):
+        for content in contents_for(True, fsp):
+            if content != 'L':
+                yield dict(kind='bfs', storage='mem_recorded', fmag=True, fsp=fsp, content=content, depth=depth)
     # the caller announces more catalogs than the file lists (n_cat given to the constructor): every pass still defines n_cat
     for storage in ('file_store', 'file_nostore'):
         for content in ('A', 'E'):
@@ -126,12 +131,25 @@ def build(case, path):
     filters = ['magnitude >= 5.0'] if case['fmag'] else None
     apply_filters = bool(case['fmag'] or case['fsp'])
     kw = dict(region=reg, filters=filters, filter_spatial=case['fsp'], apply_filters=apply_filters, name='fc')
-    if case['storage'] == 'mem':
-        cats = [fixtures.catalog(evs, region=reg, catalog_id=i, name='fc') for i, evs in enumerate(CONTENTS[case['content']])]
+    if case['storage'] in ('mem', 'mem_recorded'):
+        # mem_recorded: the synthetic catalogs were built with filters=<the forecast's statements>, which only RECORDS them
+        ckw = dict(filters=list(filters)) if (case['storage'] == 'mem_recorded' and filters) else {}
+        cats = [fixtures.catalog(evs, region=reg, catalog_id=i, name='fc', **ckw) for i, evs in enumerate(CONTENTS[case['content']])]
         return CatalogForecast(catalogs=cats, n_cat=len(cats), **kw)
     if case.get('hint'):
         kw['n_cat'] = len(CONTENTS[case['content']]) + case['hint']
     return csep.load_catalog_forecast(path, store=(case['storage'] == 'file_store'), **kw)
+
+
+def _scribble(a):
+    """In-place edit of an array the library RETURNED (what a caller may do with its own copy)."""
+    try:
+        if isinstance(a, numpy.ndarray) and a.size:
+            a[...] = -5
+        elif isinstance(a, list) and a:
+            a[:] = [-5] * len(a)
+    except (ValueError, TypeError):
+        pass
 
 
 def _test_obs(res):
@@ -148,17 +166,29 @@ def apply_op(fc, op):
         if op == 'IT':
             return ['IT', [(c.catalog_id, fixtures.events_of(c)) for c in fc]]
         if op == 'EC':
-            return ['EC', fixtures.norm(fc.get_event_counts(verbose=False))]
+            c = fc.get_event_counts(verbose=False)
+            out = ['EC', fixtures.norm(c)]
+            _scribble(c)                       # the caller owns what it was handed: sorting / shifting it in place is its business
+            return out
         if op == 'NC':
             return ['NC', fc.n_cat]
         if op == 'ER':
             r = fc.get_expected_rates()
             attr = fc.expected_rates
-            return ['ER', None if r is None else fixtures.norm(r.data), None if attr is None else fixtures.norm(attr.data)]
+            out = ['ER', None if r is None else fixtures.norm(r.data), None if attr is None else fixtures.norm(attr.data)]
+            if r is not None:
+                _scribble(r.data)
+            return out
         if op == 'SC':
-            return ['SC', fixtures.norm(fc.spatial_counts())]
+            c = fc.spatial_counts()
+            out = ['SC', fixtures.norm(c)]
+            _scribble(c)
+            return out
         if op == 'MC':
-            return ['MC', fixtures.norm(fc.magnitude_counts())]
+            c = fc.magnitude_counts()
+            out = ['MC', fixtures.norm(c)]
+            _scribble(c)
+            return out
         obs = fixtures.catalog(OBS, region=region(), name='obs')
         if op == 'cN':
             return ['cN', _test_obs(ce.number_test(fc, obs, verbose=False))]
